@@ -479,7 +479,13 @@ pub fn check_c04(tap: &Tap, av: &AckedView, h2_sides: &[Side], out: &mut Outcome
                 _ => None,
             })
             .collect();
-        let peer_frames: Vec<(u64, u32)> = tap.frames.iter().filter(|f| f.from == p && f.raw.stream != 0).filter_map(|f| f.t_d.map(|t| (t, f.raw.stream))).collect();
+        let mut peer_frames: Vec<(u64, u32)> = tap.frames.iter().filter(|f| f.from == p && f.raw.stream != 0).filter_map(|f| f.t_d.map(|t| (t, f.raw.stream))).collect();
+        // a PUSH_PROMISE also concerns the promised stream
+        for f in tap.frames.iter().filter(|f| f.from == p) {
+            if let (Ok(Frame::Push { promised, .. }), Some(t)) = (&f.frame, f.t_d) {
+                peer_frames.push((t, *promised));
+            }
+        }
         let fail = |out: &mut Outcome, sig: &str, f: &TFrame, msg: String| {
             out.fail("C04", "lifecycle", format!("C04/{}", sig), format!("{} frame #{} ({} on stream {}): {}", e.name(), f.idx, f.frame.as_ref().map(|x| x.kind()).unwrap_or("?"), f.raw.stream, msg));
         };
@@ -654,12 +660,8 @@ pub fn check_c04(tap: &Tap, av: &AckedView, h2_sides: &[Side], out: &mut Outcome
                         fail(out, "frame-on-idle-stream", f, "WINDOW_UPDATE on an idle stream".into());
                     }
                     if v.local_rst {
-                        // a WINDOW_UPDATE composed before the reset may still be in the write queue: only a
-                        // WINDOW_UPDATE written in a later step than the RST with no peer DATA since is wrong
-                        let justified = f.t_w0 == v.last_rst_t || peer_frames.iter().any(|(t, s)| *s == sid && *t <= f.t_w0);
-                        if !justified {
-                            fail(out, "frame-after-rst", f, "WINDOW_UPDATE after RST_STREAM".into());
-                        }
+                        // RFC 9113 §5.1 (closed): nothing but PRIORITY after sending RST_STREAM
+                        fail(out, "frame-after-rst", f, "WINDOW_UPDATE after RST_STREAM".into());
                     }
                 }
                 _ => {}
